@@ -143,6 +143,9 @@ def make_sim(cfg):
         elif rt == 1:
             c.router = [(1, 1, 1, 1)] * 1024
             c.router[600 + x] = None
+        elif rt == "empty":
+            # nothing allocated at all: a free block of all 1024 entries
+            c.router = [None] * 1024
         elif rt == "frag":
             c.router = [None if (i % 5 and i) else (1, 1, 1, 1)
                         for i in range(1024)]
@@ -222,6 +225,28 @@ def judge(cfg, acc):
                         % (xy, k, g, v), field=k)
                     return
         acc.outcome("chips=%d" % min(len(live), 10))
+        # ---- membership queries on the description itself
+        for xy, c in live.items():
+            for l in range(6):
+                if ((xy[0], xy[1], Links(l)) in si) != (l in c.links):
+                    bad("systeminfo_contains", "(%d, %d, %r) in system_info "
+                        "is %r, the chip reports the link %s"
+                        % (xy[0], xy[1], Links(l),
+                           (xy[0], xy[1], Links(l)) in si,
+                           "up" if l in c.links else "down"))
+                    return
+            for p_ in range(19):
+                if ((xy[0], xy[1], p_) in si) != (p_ < c.num_cpus):
+                    bad("systeminfo_contains", "(%d, %d, %d) in system_info "
+                        "is %r, the chip has %d cores"
+                        % (xy[0], xy[1], p_, (xy[0], xy[1], p_) in si,
+                           c.num_cpus))
+                    return
+        for xy in sim.chips:
+            if (xy in si) != (xy in live):
+                bad("systeminfo_contains", "%r in system_info is %r"
+                    % (xy, xy in si))
+                return
         # ---- derived machine model
         try:
             m = build_machine(si)
@@ -335,8 +360,10 @@ def part_counts_figures(params, tier, acc):
         for cp in CORE_PATTERNS:
             judge(dict(size=[2, 2], num_cpus=n, cores=cp), acc)
     for sd, sr, rt in itertools.product((0, 1, "max"), (0, 1, "max"),
-                                        (0, 1, "max", "frag")):
+                                        (0, 1, "max", "frag", "empty")):
         judge(dict(size=[2, 1], sdram=sd, sram=sr, rtr=rt), acc)
+        # chips that tie on two of the three figures and differ in the third
+        judge(dict(size=[3, 2], sdram=sd, sram=sr, rtr=rt), acc)
     acc.sample(dict(part="counts_figures"))
 
 
